@@ -145,7 +145,7 @@ func (o op) skeleton() string {
 			sh = "1"
 		}
 		return fmt.Sprintf("W\t%d\t%s\t%s", o.s, sh, encCmds(o.cmds))
-	case "B", "R", "Y", "O", "F":
+	case "B", "R", "Y", "O", "F", "V", "M":
 		return fmt.Sprintf("%s\t%d\t%x\t%x", o.kind, o.s, o.t, o.i)
 	case "S":
 		return fmt.Sprintf("S\t%d\t%x", o.s, o.i)
@@ -170,6 +170,7 @@ func genTrace(r *hx.Rng, eng string, n int, small bool) trace {
 	}
 	type ck struct{ t, i uint64 }
 	var made [2][]ck
+	var rmade [2][]ck // checkpoints copied into the store's directory for remote checkpoints
 	var pend [2]bool
 	term := uint64(1 + r.Pick(3))
 	idx := [2]uint64{uint64(1 + r.Pick(5)), uint64(1 + r.Pick(5))}
@@ -206,9 +207,9 @@ func genTrace(r *hx.Rng, eng string, n int, small bool) trace {
 					tr.ops = append(tr.ops, op{kind: "Z", s: s})
 				}
 			}
-		case c < 40:
+		case c < 32:
 			tr.ops = append(tr.ops, wr(s))
-		case c < 58:
+		case c < 48:
 			if !small && nb[s] >= 8 {
 				tr.ops = append(tr.ops, wr(s))
 				continue
@@ -232,7 +233,7 @@ func genTrace(r *hx.Rng, eng string, n int, small bool) trace {
 			made[s] = append(made[s], k)
 			nb[s]++
 			pend[s] = true
-		case c < 78:
+		case c < 66:
 			if len(made[s]) == 0 && !r.Chance(0.15) {
 				tr.ops = append(tr.ops, wr(s)) // nothing to restore yet
 				continue
@@ -242,7 +243,7 @@ func genTrace(r *hx.Rng, eng string, n int, small bool) trace {
 			if r.Chance(0.3) {
 				tr.ops = append(tr.ops, op{kind: "R", s: s, t: k.t, i: k.i}) // repeated restore
 			}
-		case c < 84:
+		case c < 72:
 			if pend[1-s] || (!small && nb[1-s] >= 8) {
 				continue
 			}
@@ -253,10 +254,10 @@ func genTrace(r *hx.Rng, eng string, n int, small bool) trace {
 			if r.Chance(0.7) {
 				tr.ops = append(tr.ops, op{kind: "R", s: 1 - s, t: k.t, i: k.i})
 			}
-		case c < 86:
+		case c < 75:
 			k, _ := pick(s)
 			tr.ops = append(tr.ops, op{kind: "O", s: s, t: k.t, i: k.i})
-		case c < 91:
+		case c < 81:
 			// fetch through PrepareSnapshot from the other store: only names the source really holds
 			// (a peer without the backup makes PrepareSnapshot retry for seconds)
 			if small || pend[1-s] || len(made[1-s]) == 0 || nb[s] >= 8 {
@@ -269,9 +270,27 @@ func genTrace(r *hx.Rng, eng string, n int, small bool) trace {
 			if r.Chance(0.8) {
 				tr.ops = append(tr.ops, op{kind: "R", s: s, t: k.t, i: k.i})
 			}
-		case c < 95:
+		case c < 86:
+			// transfer into the other store's remote directory and apply it there. At most 3 per
+			// store unless the trace has the purge barrier: the purge of that directory keeps 3.
+			if pend[1-s] || len(made[s]) == 0 || (!small && len(rmade[1-s]) >= 3) {
+				continue
+			}
+			k, _ := pick(s)
+			tr.ops = append(tr.ops, op{kind: "V", s: s, t: k.t, i: k.i})
+			rmade[1-s] = append(rmade[1-s], k)
+			if r.Chance(0.7) {
+				tr.ops = append(tr.ops, op{kind: "M", s: 1 - s, t: k.t, i: k.i})
+			}
+		case c < 88:
+			if len(rmade[s]) == 0 {
+				continue
+			}
+			k := rmade[s][r.Pick(len(rmade[s]))]
+			tr.ops = append(tr.ops, op{kind: "M", s: s, t: k.t, i: k.i})
+		case c < 92:
 			tr.ops = append(tr.ops, op{kind: "X", s: s})
-		case c < 97:
+		case c < 96:
 			if eng == "mem" {
 				continue // the mem engine keeps nothing across a reopen (only a restore writes its data file)
 			}
